@@ -554,9 +554,20 @@ pub async fn exec_c15_mode(script: Value, bookkeeping: bool) -> ExecResult {
         // previous gRPC owners of a key: (node, connection, number of kills of that node when it registered). A hand-over is
         // exposed to the previous owner's delayed sync messages (F27) only if that owner's node has not been killed between
         // its registration and the new one: a killed incarnation sends nothing and a restarted node remembers nothing
-        let mut owners_seen: BTreeMap<(u8, u8), BTreeSet<(u64, u8, u32)>> = BTreeMap::new();
+        // ... and only while that owner's update can still be in flight: the 500 ms batch window plus delivery - without
+        // injected faults 2 s, with them 12 s (a lost request is repeated once after the 3 s time-out, a slow one takes 2.5 s more)
+        let mut owners_seen: BTreeMap<(u8, u8), BTreeMap<(u64, u8, u32), u64>> = BTreeMap::new();
         let mut kills: BTreeMap<u64, u32> = BTreeMap::new();
         let mut handed_risky: BTreeSet<(u8, u8)> = BTreeSet::new();
+        // an address registered by a second connection while the first one is still open (take-over): connections that
+        // registered a key, are still open and are not its current owner; take-overs with the previous owner, the time and
+        // the time at which the previous owner's connection ended (if it did). As long as the previous owner's connection
+        // stays open its node keeps reporting the address in its 12 s anti-entropy round, which (no versions, F27) overwrites
+        // the newer registration; a take-over is exposed to that only if such a report was sent in between. Keys whose owner
+        // went away while an older claimant was still open have no defined presence (the nodes must still agree)
+        let mut claims: BTreeMap<(u8, u8), BTreeSet<(u64, u8)>> = BTreeMap::new();
+        let mut takeovers: Vec<((u8, u8), (u64, u8), u64, Option<u64>)> = vec![];
+        let mut ambiguous: BTreeSet<(u8, u8)> = BTreeSet::new();
         // when an HTTP address was last deregistered (us)
         let mut http_removed_at: BTreeMap<(u8, u8), u64> = BTreeMap::new();
         let mut rng = Rng::derive(seed, "C15.exec", 0);
@@ -623,15 +634,29 @@ pub async fn exec_c15_mode(script: Value, bookkeeping: bool) -> ExecResult {
             ($x:expr, $c:expr, $s:expr, $a:expr) => {{
                 let (x, c, s, a): (u64, u8, u8, u8) = ($x, $c, $s, $a);
                 if grpc_instance(&node(x).unwrap(), &c_conn(x, c), CSVCS[s as usize], &c_ip(a), true).await {
+                    if let Some(o) = grpc_alive.get(&(s, a)).cloned() {
+                        if o != (x, c) {
+                            claims.entry((s, a)).or_default().insert(o);
+                            takeovers.push(((s, a), o, sim::now_us(), None));
+                        }
+                    }
+                    if let Some(cl) = claims.get_mut(&(s, a)) {
+                        cl.remove(&(x, c));
+                    }
+                    ambiguous.remove(&(s, a));
                     grpc_alive.insert((s, a), (x, c));
                     let kx = kills.get(&x).copied().unwrap_or(0);
                     let prev = owners_seen.entry((s, a)).or_default();
-                    if prev.iter().any(|(pn, pc, pk)| (*pn, *pc) != (x, c) && kills.get(pn).copied().unwrap_or(0) == *pk) {
+                    let window_us: u64 = if faulted { 12_000_000 } else { 2_000_000 };
+                    let now_us = sim::now_us();
+                    if prev.iter().any(|((pn, pc, pk), t)| (*pn, *pc) != (x, c) && kills.get(pn).copied().unwrap_or(0) == *pk && now_us < *t + window_us) {
                         handed_risky.insert((s, a));
-                    } else if prev.iter().any(|(pn, pc, _)| (*pn, *pc) != (x, c)) {
+                    } else if prev.iter().any(|((pn, pc, pk), _)| (*pn, *pc) != (x, c) && kills.get(pn).copied().unwrap_or(0) != *pk) {
                         sim::count("probe.handover_after_owner_node_died", 1);
+                    } else if prev.iter().any(|((pn, pc, _), _)| (*pn, *pc) != (x, c)) {
+                        sim::count("probe.handover_after_previous_owner_went_quiet", 1);
                     }
-                    prev.insert((x, c, kx));
+                    prev.insert((x, c, kx), now_us);
                     ops += 1;
                 }
             }};
@@ -695,8 +720,13 @@ pub async fn exec_c15_mode(script: Value, bookkeeping: bool) -> ExecResult {
                         continue;
                     }
                     let (s, a) = (*svc % 3, *ip % 5);
-                    if http_alive.contains_key(&(s, a)) || grpc_alive.get(&(s, a)).map(|o| *o != (x, *conn % 2)).unwrap_or(false) {
+                    if http_alive.contains_key(&(s, a)) {
                         continue;
+                    }
+                    // an address held by another open connection (on this or another node) is taken over: the newer
+                    // registration owns it from now on, and the end of the previous owner's connection no longer removes it
+                    if grpc_alive.get(&(s, a)).map(|o| *o != (x, *conn % 2)).unwrap_or(false) {
+                        sim::count("probe.takeover_from_open_connection", 1);
                     }
                     grpc_reg!(x, *conn % 2, s, a);
                 }
@@ -717,7 +747,20 @@ pub async fn exec_c15_mode(script: Value, bookkeeping: bool) -> ExecResult {
                     *kills.entry(x).or_insert(0) += 1;
                     faulted = true;
                     sim::count("fault.kill", 1);
+                    for (k, o) in grpc_alive.iter() {
+                        if o.0 == x && claims.get(k).map(|c| c.iter().any(|p| p.0 != x)).unwrap_or(false) {
+                            ambiguous.insert(*k);
+                        }
+                    }
                     grpc_alive.retain(|_, o| o.0 != x);
+                    for c in claims.values_mut() {
+                        c.retain(|p| p.0 != x);
+                    }
+                    for t in takeovers.iter_mut() {
+                        if (t.1).0 == x && t.3.is_none() {
+                            t.3 = Some(sim::now_us());
+                        }
+                    }
                     adv!(*delay_ms);
                     for (s, a) in held {
                         if http_alive.contains_key(&(s, a)) || grpc_alive.contains_key(&(s, a)) {
@@ -735,6 +778,9 @@ pub async fn exec_c15_mode(script: Value, bookkeeping: bool) -> ExecResult {
                     }
                     let _ = grpc_instance(&node(x).unwrap(), &c_conn(x, *conn), CSVCS[s as usize], &c_ip(a), false).await;
                     grpc_alive.remove(&(s, a));
+                    if claims.get(&(s, a)).map(|c| !c.is_empty()).unwrap_or(false) {
+                        ambiguous.insert((s, a));
+                    }
                     ops += 1;
                 }
                 CStep::ConnClose { node: x, conn } => {
@@ -743,7 +789,20 @@ pub async fn exec_c15_mode(script: Value, bookkeeping: bool) -> ExecResult {
                         continue;
                     }
                     node(x).unwrap().app.bi_stream_manage.do_send(rnacos::grpc::bistream_manage::BiStreamManageCmd::ConnClose(Arc::new(c_conn(x, *conn))));
+                    for (k, o) in grpc_alive.iter() {
+                        if *o == (x, *conn % 2) && claims.get(k).map(|c| !c.is_empty()).unwrap_or(false) {
+                            ambiguous.insert(*k);
+                        }
+                    }
                     grpc_alive.retain(|_, o| *o != (x, *conn % 2));
+                    for c in claims.values_mut() {
+                        c.remove(&(x, *conn % 2));
+                    }
+                    for t in takeovers.iter_mut() {
+                        if t.1 == (x, *conn % 2) && t.3.is_none() {
+                            t.3 = Some(sim::now_us());
+                        }
+                    }
                     ops += 1;
                     advance(20).await;
                 }
@@ -774,7 +833,20 @@ pub async fn exec_c15_mode(script: Value, bookkeeping: bool) -> ExecResult {
                         faulted = true;
                         sim::count("fault.kill", 1);
                         // its connections die with it
+                        for (k, o) in grpc_alive.iter() {
+                            if o.0 == x && claims.get(k).map(|c| c.iter().any(|p| p.0 != x)).unwrap_or(false) {
+                                ambiguous.insert(*k);
+                            }
+                        }
                         grpc_alive.retain(|_, o| o.0 != x);
+                        for c in claims.values_mut() {
+                            c.retain(|p| p.0 != x);
+                        }
+                        for t in takeovers.iter_mut() {
+                            if (t.1).0 == x && t.3.is_none() {
+                                t.3 = Some(sim::now_us());
+                            }
+                        }
                     }
                 }
                 CStep::Restart { node: x } => {
@@ -828,6 +900,19 @@ pub async fn exec_c15_mode(script: Value, bookkeeping: bool) -> ExecResult {
         let b_ms = script["bound_ms"].as_u64().unwrap_or(75_000);
         adv!(b_ms);
         let live: Vec<u64> = all_ids.iter().filter(|x| !killed.contains(x)).cloned().collect();
+        {
+            let distro = naming_distro_msg_times();
+            let now_us = sim::now_us();
+            for (k, prev, t0, t_end) in &takeovers {
+                let end = t_end.unwrap_or(now_us) + 1_000_000;
+                if distro.iter().any(|(src, t)| *src == prev.0 && *t >= *t0 && *t <= end) {
+                    handed_risky.insert(*k);
+                    sim::count("probe.takeover_exposed_to_previous_owners_report", 1);
+                } else {
+                    sim::count("probe.takeover_previous_owner_left_before_its_next_report", 1);
+                }
+            }
+        }
         let mut all_sets = vec![];
         for s in 0..3u8 {
             let name = CSVCS[s as usize];
@@ -877,7 +962,7 @@ pub async fn exec_c15_mode(script: Value, bookkeeping: bool) -> ExecResult {
             }
             // (F27) an address that changed hands: the previous owner's delayed messages may overwrite the newer
             // registration's fields as well as delete it
-            let handed: BTreeSet<String> = grpc_alive.keys().filter(|k| k.0 == s && (http_touched.contains(k) || handed_risky.contains(k))).map(|k| c_ip(k.1)).collect();
+            let handed: BTreeSet<String> = grpc_alive.keys().filter(|k| k.0 == s && (http_touched.contains(k) || handed_risky.contains(k))).chain(ambiguous.iter().filter(|k| k.0 == s)).map(|k| c_ip(k.1)).collect();
             if !handed.is_empty() {
                 let views: Vec<BTreeSet<(String, bool, bool, u32)>> = per_node.values().map(|v| v.iter().filter(|e| handed.contains(&e.0)).cloned().collect()).collect();
                 if views.iter().any(|v| *v != views[0]) {
@@ -920,7 +1005,7 @@ pub async fn exec_c15_mode(script: Value, bookkeeping: bool) -> ExecResult {
             }
             for e in &first {
                 let a = (0..5u8).find(|a| c_ip(*a) == e.0).unwrap_or(9);
-                let expected = http_alive.contains_key(&(s, a)) || grpc_alive.contains_key(&(s, a));
+                let expected = http_alive.contains_key(&(s, a)) || grpc_alive.contains_key(&(s, a)) || ambiguous.contains(&(s, a));
                 vensure!(expected, "C15.dead_instance_served", "service {}: {} is still served by every node {} s after quiescence although it was deregistered, its connection ended or its node died", name, e.0, b_ms / 1000);
             }
             all_sets.push(first);
@@ -1019,6 +1104,24 @@ impl Check for C15 {
                 CStep::Advance { ms: 100 }
             };
             steps.push(st);
+        }
+        // a third of the runs: an address moves from a connection on one node to a connection on another node while the
+        // first is still open, and the first connection ends shortly afterwards (the newer registration must survive that)
+        let mut rt = Rng::derive(seed, "C15.takeover", 0);
+        if rt.chance(0.33) {
+            let (a, b) = (rt.below(3) as u8, rt.below(2) as u8 + 1);
+            let (svc, ip, c1, c2) = (rt.below(3) as u8, rt.below(5) as u8, rt.below(2) as u8, rt.below(2) as u8);
+            let seq = vec![
+                CStep::GrpcReg { node: a, conn: c1, svc, ip },
+                CStep::Advance { ms: *rt.pick(&[2500u64, 4000, 7000]) },
+                CStep::GrpcReg { node: (a + b) % 3, conn: c2, svc, ip },
+                CStep::Advance { ms: *rt.pick(&[700u64, 1500, 3000, 6000]) },
+                CStep::ConnClose { node: a, conn: c1 },
+            ];
+            let at = rt.below(steps.len() as u64 + 1) as usize;
+            for (i, st) in seq.into_iter().enumerate() {
+                steps.insert(at + i, st);
+            }
         }
         json!({"check": "C15", "seed": seed, "cfg": cfg, "fault_net": fault_net, "bound_ms": 75_000, "steps": steps})
     }
